@@ -266,6 +266,25 @@ def unit_eq_hash(U):
     for p in U.explore(runh, it):
         ok = p.kind == "return" and isinstance(p.value, SInt)
         U.prove("C17.hash#p%d" % p.index, "hash(a) == hash(str(a)) (recomputed from the printed line at every call)", p.pc, (p.value.e == Hash(sa)) if ok else z3.BoolVal(False), {"str_a": sa}, replay=replay)
+    sc = z3.String("str_a_after_edit")
+
+    def runh2(ctx):
+        a, b = setup(ctx)
+        state = {"n": 0}
+
+        def strc(interp, args, k):
+            if args[0] is a:
+                state["n"] += 1
+                return SStr([Val(sa)]) if state["n"] == 1 else SStr([Val(sc)])
+            return SStr([Val(sb)])
+        it.contracts[F.Feature.__str__] = strc
+        h1 = it.call(F.Feature.__hash__, [a], {})
+        h2 = it.call(F.Feature.__hash__, [a], {})     # the printed line changed in between (arbitrary edit)
+        return h1, h2
+    for p in U.explore(runh2, it):
+        ok = p.kind == "return" and isinstance(p.value[0], SInt) and isinstance(p.value[1], SInt)
+        U.prove("C17.hash.after_edit#p%d" % p.index, "hash(a) == hash(str(a)) also after the feature was hashed before and then edited (no stale value)", p.pc,
+                z3.And(p.value[0].e == Hash(sa), p.value[1].e == Hash(sc)) if ok else z3.BoolVal(False), {"str_a": sa}, replay=replay)
     U.prove("C17.lemma.hash_alike", "a == b ==> hash(a) == hash(b)  (from the three contracts)", [sa == sb], Hash(sa) == Hash(sb), {}, kind="lemma")
 
 
